@@ -81,7 +81,7 @@ Section Single.
   Lemma sem_TShape a s : okT a = true -> SInv s -> TShape (fst (sem a s)).
   Proof.
     intros Hok HI. pose proof HI as [HF HT].
-    destruct a as [p|p|d|p q|p|i raises|off|d| | |t|t|p|src dst|src dst|p|p|e|t|t rel n|t|t| |p q|p q|t|p|n];
+    destruct a as [p|p|d|p q|p|i raises|off|d| | |t|t|p|src dst|src dst|p|p|e|t|t rel n|t|t| |p q|p q|t|p|n| ];
       simpl in *; try (eapply TShape_same; [|exact HT]; reflexivity); try discriminate.
     - apply path_eqb_eq in Hok. subst d.
       destruct (lookup (s_fs s) tmpd) eqn:E; [eapply TShape_same; [|exact HT]; reflexivity|].
@@ -155,7 +155,7 @@ Lemma sem_trace a s :
   s_trace (fst (sem a s)) = s_trace s \/ exists o, s_trace (fst (sem a s)) = o :: s_trace s
      /\ (is_replace a = false -> forall x y, o <> OReplace x y) /\ (forall b, o <> OFail b).
 Proof.
-  destruct a as [p|p|d|p q|p|i raises|off|d| | |t|t|p|src dst|src dst|p|p|e|t|t rel n|t|t| |p q|p q|t|p|n]; simpl;
+  destruct a as [p|p|d|p q|p|i raises|off|d| | |t|t|p|src dst|src dst|p|p|e|t|t rel n|t|t| |p q|p q|t|p|n| ]; simpl;
     try (right; eexists; split; [reflexivity|split; [intros; discriminate|intros; discriminate]]);
     try (left; reflexivity).
   - destruct (lookup (s_fs s) d); [|destruct (parent_ok (s_fs s) d)]; simpl;
@@ -222,7 +222,7 @@ Qed.
 Lemma sem_valids a s : is_invalidate a = false -> valids (fst (sem a s)) = valids s.
 Proof.
   intros Ha. unfold valids.
-  destruct a as [p|p|d|p q|p|i raises|off|d| | |t|t|p|src dst|src dst|p|p|e|t|t rel n|t|t| |p q|p q|t|p|n]; simpl in *;
+  destruct a as [p|p|d|p q|p|i raises|off|d| | |t|t|p|src dst|src dst|p|p|e|t|t rel n|t|t| |p q|p q|t|p|n| ]; simpl in *;
     try reflexivity; try discriminate.
   - destruct (lookup (s_fs s) d); [|destruct (parent_ok (s_fs s) d)]; reflexivity.
   - destruct (lookup (s_fs s) (resolve (s_fs s) p)) as [[| |]|]; [| | |destruct (parent_ok (s_fs s) (resolve (s_fs s) p))];
@@ -271,7 +271,7 @@ Lemma sem_tens a s :
   \/ exists t, s_tens (fst (sem a s)) = upd (s_tens s) t (fun x => set_map x None).
 Proof.
   intros Ha.
-  destruct a as [p|p|d|p q|p|i raises|off|d| | |t|t|p|src dst|src dst|p|p|e|t|t rel n|t|t| |p q|p q|t|p|n]; simpl in *;
+  destruct a as [p|p|d|p q|p|i raises|off|d| | |t|t|p|src dst|src dst|p|p|e|t|t rel n|t|t| |p q|p q|t|p|n| ]; simpl in *;
     try (left; reflexivity); try discriminate.
   - left. destruct (lookup (s_fs s) d); [|destruct (parent_ok (s_fs s) d)]; reflexivity.
   - left. destruct (lookup (s_fs s) (resolve (s_fs s) p)) as [[| |]|]; [| | |destruct (parent_ok (s_fs s) (resolve (s_fs s) p))];
